@@ -471,6 +471,14 @@ func runC15Blind(c *Ctx, pki *tlsPKI) {
 				for variant := 0; variant < 5; variant++ {
 					jobs = append(jobs, job{s, v, su, variant})
 				}
+				if su == 0xc02f || su == 0x002f {
+					// the same hello with extension blocks another implementation might send (variants 5..): server_name lists
+					// with entries of other name types, several host names, an empty list, an empty extension; unknown and
+					// duplicated extensions — all well-formed as far as their lengths go
+					for variant := 5; variant < 5+c15BlindExtVariants; variant++ {
+						jobs = append(jobs, job{s, v, su, variant})
+					}
+				}
 			}
 		}
 	}
@@ -495,7 +503,7 @@ func runC15Blind(c *Ctx, pki *tlsPKI) {
 			sm.Close()
 		}()
 		ver := [2]byte{byte(j.ver >> 8), byte(j.ver)}
-		ch := (&ref.ClientHello{Version: j.ver, Random: r.Bytes(32), Suites: []uint16{j.suite, 0x00ff}, Compression: []byte{0}}).Marshal()
+		ch := (&ref.ClientHello{Version: j.ver, Random: r.Bytes(32), Suites: []uint16{j.suite, 0x00ff}, Compression: []byte{0}, Extensions: c15BlindExtensions(j.variant)}).Marshal()
 		cm.Write(wrapRec(ref.RecHandshake, [2]byte{3, 1}, ch))
 		// wait for the end of the server's flight (ServerHelloDone), an alert, or the end of the stream
 		var acc []byte
@@ -562,6 +570,7 @@ func runC15Blind(c *Ctx, pki *tlsPKI) {
 		case <-done:
 		case <-time.After(60 * time.Second):
 			rep.Violation("C15/Handshake/no-return-after-input-ended/blind-client/"+j.s.name, fmt.Sprintf("version %04x suite %04x variant %d", j.ver, j.suite, j.variant), nil)
+			noteSpin()
 			cm.Close()
 			sm.Close()
 			<-done
@@ -663,6 +672,52 @@ func c15RewriteSigAlg(m []byte, v uint16) []byte {
 		}
 		nb := append(append([]byte{}, body[:o]...), byte(len(exts)>>8), byte(len(exts)))
 		return rebuild(append(nb, exts...))
+	}
+	return nil
+}
+
+const c15BlindExtVariants = 10
+
+// c15BlindExtensions returns the extensions block of blind-client variant v (nil below 5).
+func c15BlindExtensions(v int) []byte {
+	ext := func(typ int, data []byte) []byte {
+		return append([]byte{byte(typ >> 8), byte(typ), byte(len(data) >> 8), byte(len(data))}, data...)
+	}
+	sni := func(entries ...[]byte) []byte {
+		var list []byte
+		for _, e := range entries {
+			list = append(list, e...)
+		}
+		return ext(0, append([]byte{byte(len(list) >> 8), byte(len(list))}, list...))
+	}
+	name := func(typ byte, n string) []byte {
+		return append([]byte{typ, byte(len(n) >> 8), byte(len(n))}, n...)
+	}
+	groups := ext(10, []byte{0, 2, 0, 23})
+	points := ext(11, []byte{1, 0})
+	sigs := ext(13, []byte{0, 4, 4, 1, 4, 3})
+	base := append(append(append([]byte{}, groups...), points...), sigs...)
+	switch v {
+	case 5:
+		return append(sni(name(1, "x")), base...)
+	case 6:
+		return append(sni(name(0, "a.example"), name(255, "")), base...)
+	case 7:
+		return append(sni(name(0, "a.example"), name(0, "b.example")), base...)
+	case 8:
+		return append(sni(), base...)
+	case 9:
+		return append(ext(0, nil), base...)
+	case 10:
+		return append(sni(name(7, ""), name(0, "c.example")), base...)
+	case 11:
+		return append(append(sni(name(0, "d.example")), sni(name(0, "e.example"))...), base...) // the extension twice
+	case 12:
+		return append(ext(0xfafa, []byte{1, 2, 3}), base...)
+	case 13:
+		return append(append(ext(16, []byte{0, 3, 2, 'h', '2'}), ext(13172, nil)...), base...) // ALPN and NPN together
+	case 14:
+		return append(ext(35, make([]byte, 300)), base...) // a session ticket nobody issued
 	}
 	return nil
 }
